@@ -24,6 +24,7 @@ RMS = ['RNE', 'RTZ', 'RTP', 'RTN']
 K_NEGZERO_INT = 'int_storage_loses_neg_zero'
 K_FENV = 'fesetround_not_a_barrier_when_optimised'
 K_RTN0 = 'rtn_exact_zero_sum_is_plus_zero'
+K_F32LIT = 'f32_literal_operand_promotes_to_double'
 
 
 # ---------------------------------------------------------------- program generator
@@ -228,10 +229,13 @@ def {name}({", ".join(v + ": fp.Real" for v in vs)}):
     with {scope}:
         xs = [{", ".join(vs)}]
         s = sum(xs)
+        pair = [a0, a1]
+        s2 = sum(pair)
+        d2 = sum([a1, a1])
         lo = min(xs)
         hi = max(xs)
         t = {extra}
-    return s, lo, hi, t, s < hi'''
+    return s, s2, d2, lo, hi, t, s < hi'''
     p = P('reductions-at-type-boundaries', name, src, 'fp.FP64', [kind] * n)
     p.boundary = True
     return p
@@ -272,18 +276,42 @@ def {name}(a0: fp.Real, a1: fp.Real):
 
 
 def gen_nested(rng, i):
-    """lists nested 2 and 3 deep, names bound at each depth, a slot replaced at each depth, a helper writing through"""
+    """lists nested 2 and 3 deep, names bound at each depth, a slot replaced at EACH depth (one structure per depth in
+    every program), a helper callee writing through the bound names"""
     name = f'ns{i}'
-    a, b, c = rng.randint(0, 1), rng.randint(0, 1), rng.randint(0, 1)
-    d = rng.randint(0, 1)
-    rep3 = rng.choice(['slot2', 'slot1', 'elem'])
-    if rep3 == 'slot2':
-        replace3 = f'xsss[{a}][{b}] = ys'
-    elif rep3 == 'slot1':
-        replace3 = f'xsss[{a}] = [ys, [a1, a1]]'
-    else:
-        replace3 = f'xsss[{a}][{b}][{c}] = a0 * 4'
-    rep2 = rng.choice([f'xss[{d}] = ys', f'xss[{d}][{c}] = a1 * 8', f'xss[{1 - d}] = ys'])
+    c = rng.randint(0, 1)
+    parts, rets = [], []
+    for tag, rep in (('p', 'slot2'), ('q', 'slot1'), ('r', 'elem')):
+        a, b = rng.randint(0, 1), rng.randint(0, 1)
+        X, Y = f'{tag}sss', f'{tag}ys'
+        if rep == 'slot2':
+            replace3 = f'{X}[{a}][{b}] = {Y}'
+        elif rep == 'slot1':
+            replace3 = f'{X}[{a}] = [{Y}, [a1, a1]]'
+        else:
+            replace3 = f'{X}[{a}][{b}][{c}] = a0 * 4'
+        parts.append(f'''    {X} = [[[a0, a1], [a1, a0]], [[a0, a0], [a1, a1]]]
+    {Y} = [a1 * 2, a0 * 2]
+    {tag}plane = {X}[{a}]
+    {tag}row = {X}[{a}][{b}]
+    {replace3}
+    {tag}h = {name}_poke({tag}row, a0 + a1)
+    {tag}r1 = {tag}row[0] + {X}[{a}][{b}][1]
+    {tag}p1 = {tag}plane[{b}][{c}]
+    {Y}[{1 - c}] = {tag}h + {tag}p1''')
+        rets += [f'{tag}r1', f'{tag}row[0]', f'{tag}row[1]', f'{X}[{a}][{b}][0]', f'{X}[{a}][{b}][1]', f'{tag}p1', f'{tag}h',
+                 f'{Y}[0]', f'{Y}[1]', f'len({X}[{a}])']
+    for tag, kind in (('u', 'slot'), ('v', 'elem')):
+        d = rng.randint(0, 1)
+        X, Y = f'{tag}ss', f'{tag}ys'
+        rep2 = f'{X}[{d}] = {Y}' if kind == 'slot' else f'{X}[{d}][{c}] = a1 * 8'
+        parts.append(f'''    {X} = [[a0, a1], [a1, a0]]
+    {Y} = [a1 * 2, a0 * 2]
+    {tag}line = {X}[{d}]
+    {rep2}
+    {tag}g = {name}_poke({tag}line, a0 - a1)''')
+        rets += [f'{tag}line[0]', f'{tag}line[1]', f'{X}[{d}][0]', f'{X}[{d}][1]', f'{tag}g', f'{Y}[0]']
+    body = '\n'.join(parts)
     src = f'''@fp.fpy
 def {name}_poke(zs: list[fp.Real], v: fp.Real):
     zs[{c}] = v
@@ -291,20 +319,8 @@ def {name}_poke(zs: list[fp.Real], v: fp.Real):
 
 @fp.fpy
 def {name}(a0: fp.Real, a1: fp.Real):
-    xsss = [[[a0, a1], [a1, a0]], [[a0, a0], [a1, a1]]]
-    ys = [a1 * 2, a0 * 2]
-    plane = xsss[{a}]
-    row = xsss[{a}][{b}]
-    {replace3}
-    h = {name}_poke(row, a0 + a1)
-    r1 = row[0] + xsss[{a}][{b}][1]
-    p1 = plane[{b}][{c}]
-    xss = [[a0, a1], [a1, a0]]
-    line = xss[{d}]
-    {rep2}
-    g = {name}_poke(line, a0 - a1)
-    ys[{c}] = h + g
-    return r1, row[0], row[1], xsss[{a}][{b}][0], xsss[{a}][{b}][1], p1, h, line[0], line[1], xss[{d}][0], xss[{d}][1], ys[0], ys[1], len(xsss[{a}])'''
+{body}
+    return {", ".join(rets)}'''
     return P('nested-lists-slot-replacement', name, src, 'fp.FP64', ['f64', 'f64'])
 
 
@@ -418,6 +434,48 @@ def tok_eq(want, got):
     return struct.pack('<d', want) == struct.pack('<d', float.fromhex(g))
 
 
+def storage_misfit(cty, v):
+    """None when the interpreter value v is a value of the C++ storage type cty, else the reason"""
+    from fpy2.backend.cpp.types import CppList, CppTuple, CppScalar
+    if isinstance(cty, CppTuple):
+        if not isinstance(v, tuple) or len(v) != len(cty.elts):
+            return 'shape'
+        for e, x in zip(cty.elts, v):
+            r = storage_misfit(e, x)
+            if r:
+                return r
+        return None
+    if isinstance(cty, CppList):
+        if not isinstance(v, list):
+            return 'shape'
+        for x in v:
+            r = storage_misfit(cty.elt, x)
+            if r:
+                return r
+        return None
+    if cty is CppScalar.BOOL:
+        return None if isinstance(v, bool) else 'shape'
+    if isinstance(v, bool):
+        return 'shape'
+    try:
+        f = float(v)
+    except Exception:  # noqa
+        return None
+    if cty.is_float():
+        if cty is CppScalar.F32 and f == f and f not in (float('inf'), float('-inf')) and to_f32(f) != f:
+            return 'not a binary32 value'
+        return None
+    if f != f or f in (float('inf'), float('-inf')):
+        return 'NaN / infinity in an integer type'
+    if f != int(f):
+        return 'fraction in an integer type'
+    if f == 0 and math.copysign(1, f) < 0:
+        return 'negative zero in an integer type'
+    bits = {'U8': (0, 2 ** 8 - 1), 'U16': (0, 2 ** 16 - 1), 'U32': (0, 2 ** 32 - 1), 'U64': (0, 2 ** 64 - 1),
+            'S8': (-2 ** 7, 2 ** 7 - 1), 'S16': (-2 ** 15, 2 ** 15 - 1), 'S32': (-2 ** 31, 2 ** 31 - 1), 'S64': (-2 ** 63, 2 ** 63 - 1)}[cty.name]
+    return None if bits[0] <= int(f) <= bits[1] else f'{int(f)} outside the range of {cty.format()}'
+
+
 # ---------------------------------------------------------------- the run
 def run_differential(ck, rng, thorough):
     import fpy2 as fp
@@ -430,8 +488,9 @@ def run_differential(ck, rng, thorough):
         ck.broken.append('no g++ found: the compile-and-run differential cannot run')
         return
     from .c14_programs import make_tracer
+    import fpy2.ops as ops
     Tracer = make_tracer(fp)
-    nprog = 60 if thorough else 12
+    nprog = 72 if thorough else 18
     nvec = 24 if thorough else 8
     progs = []
     for i in range(nprog):
@@ -456,6 +515,7 @@ def run_differential(ck, rng, thorough):
     configs = [(o, u, a) for o in (True, False) for u in (UnboxMode.NEVER, UnboxMode.ALLOW, UnboxMode.STRICT) for a in (True, False)]
     ck.extra.setdefault('differential', {})['option_combinations'] = [f'optimize={o},unbox={u.name},arrays={a}' for o, u, a in configs]
 
+    storage_checks = [0, 0]
     jobs = []       # (program, [(cfgname, config)], samples, tu path)
     refused = {}
     for p in progs:
@@ -483,8 +543,36 @@ def run_differential(ck, rng, thorough):
                 args = [sample_arg(rng, k, s < 4) for k in p.args]
             last, flags = {}, set()
 
-            def sink(e, value, last=last, flags=flags):
+            dbl = {}
+
+            def sink(e, value, last=last, flags=flags, dbl=dbl):
                 last[id(e)] = value
+                kind0 = type(e).__name__
+                # which sub-expressions the emitted C++ evaluates in binary64 although the context is binary32: a fractional
+                # literal token is a `double`, and the promotion is contagious through infix / prefix operators.  The known
+                # class is flagged only when such an operation, done in binary64, yields a value the binary32 operation does not
+                if kind0 in ('Decnum', 'Hexnum', 'Rational', 'Digits'):
+                    try:
+                        dbl[id(e)] = e.as_rational().denominator != 1
+                    except Exception:  # noqa
+                        dbl[id(e)] = False
+                elif kind0 == 'Neg':
+                    dbl[id(e)] = dbl.get(id(e.arg), False)
+                elif kind0 in ('Add', 'Sub', 'Mul', 'Div') and isinstance(value, fp.Float):
+                    c = getattr(value, 'ctx', None)
+                    if getattr(c, 'nbits', None) == 32 and getattr(c, 'es', None) == 8 and \
+                            (dbl.get(id(e.first), False) or dbl.get(id(e.second), False)):
+                        dbl[id(e)] = True
+                        x, y = last.get(id(e.first)), last.get(id(e.second))
+                        try:
+                            wide = fp.IEEEContext(11, 64, c.rm)
+                            r64 = {'Add': ops.add, 'Sub': ops.sub, 'Mul': ops.mul, 'Div': ops.div}[kind0](x, y, ctx=wide)
+                            same = (r64.isnan and value.isnan) or (not r64.isnan and not value.isnan and r64.isinf == value.isinf
+                                                                    and r64.s == value.s and (r64.isinf or r64 == value))
+                            if not same:
+                                flags.add(K_F32LIT)
+                        except Exception:  # noqa
+                            flags.add(K_F32LIT)
                 if not isinstance(value, fp.Float) or value.isnan or value.isinf or not value.is_zero():
                     return
                 kind = type(e).__name__
@@ -515,7 +603,7 @@ def run_differential(ck, rng, thorough):
                 toks = flatten(want, [])
             except Exception:  # noqa -- a value a double cannot hold
                 continue
-            samples.append((args, toks, frozenset(flags)))
+            samples.append((args, toks, frozenset(flags), want))
         if not samples:
             ck.count('differential: program without usable inputs')
             continue
@@ -531,9 +619,20 @@ def run_differential(ck, rng, thorough):
                 key = type(e).__name__
                 refused[key] = refused.get(key, 0) + 1
                 continue
+            # no g++ needed: every result the interpreter returns must be a value of the storage type chosen for it
+            for si, (args, _, flags, want) in enumerate(samples):
+                why = storage_misfit(ret, want)
+                if why:
+                    storage_checks[1] += 1
+                    key = K_NEGZERO_INT if (why == 'negative zero in an integer type' and K_NEGZERO_INT in flags) else None
+                    ck.violation('the interpreter result is not a value of the C++ storage type chosen for the return value',
+                                 {'program': p.name, 'family': p.family, 'source': p.src, 'ctx': p.ctx, 'arg_kinds': p.args,
+                                  'args': [repr(x) for x in args], 'options': f'optimize={o}, unbox={u.name}, arrays={a}',
+                                  'return_storage': ret.format(), 'why': why, 'interpreter': repr(want)[:400]}, key=key)
+                storage_checks[0] += 1
             lines = [f'namespace cfg{ci} {{', body, f'static void run() {{']
             ok = True
-            for si, (args, _, _) in enumerate(samples):
+            for si, (args, _, _, _) in enumerate(samples):
                 try:
                     decl = [f'{cty.format()} a{k} = {cpp_value(v, cty)};' for k, (v, cty) in enumerate(zip(args, params))]
                 except ValueError:
@@ -603,7 +702,7 @@ def run_differential(ck, rng, thorough):
             ci = int(rows[0])
             o, u, a = configs[ci]
             rows = rows[1:1 + len(samples)]
-            for si, ((args, want, flags), row) in enumerate(zip(samples, rows)):
+            for si, ((args, want, flags, _), row) in enumerate(zip(samples, rows)):
                 got = row.split()
                 if got[:1] == ['SKIP']:
                     continue
@@ -628,6 +727,10 @@ def run_differential(ck, rng, thorough):
                     # and IEEE 754 hardware -0 (both builds differ from the interpreter)
                     elif K_RTN0 in flags and (opt == REF or (p.name, ci, si) not in agree_O0):
                         key = K_RTN0
+                    # known class 4: the run contains a binary32 operation with a fractional literal operand whose binary64
+                    # evaluation (what the emitted infix expression computes) differs from the binary32 one
+                    elif K_F32LIT in flags and all(isinstance(w, float) for w, g in diffs):
+                        key = K_F32LIT
                     # known class 2: the reference build (-O0 -frounding-math) of the same translation unit agrees with the
                     # interpreter on this input, this build does not, and the program switches the rounding mode: g++ evaluates
                     # floating-point operations without regard to the dynamic mode (compile-time folding of literal operands
@@ -640,7 +743,8 @@ def run_differential(ck, rng, thorough):
                               'interpreter': [w if isinstance(w, str) else float(w).hex() for w in want], 'compiled': got,
                               'translation_unit': str(tu)}, key=key)
     hist = {f'{f} {o}': n for (f, o), n in sorted(hist.items())}
-    ck.evaluations += compared
+    ck.evaluations += compared + storage_checks[0]
+    ck.count('differential: interpreter results checked against the chosen return storage (no g++)', storage_checks[0])
     ck.count('differential: compiled runs compared with the interpreter (testing)', compared)
     ck.extra['differential'].update({
         'label': 'TESTING: real g++ build and run, bitwise comparison with the interpreter; not part of the proof',
